@@ -22,7 +22,8 @@ RULE = ("each case compiles one generated model for one configuration (backend i
         "JAX probes, read-only parameter arrays on NumPy probes; non-trivial = model has an edge or >= 3 distinct functions; "
         "distinct = distinct (spec, configuration) hash")
 DECIDING = ['derivatives_compared', 'torch_cases', 'jax_cases', 'fortran_cases', 'default_cases', 'float32_cases', 'rows_compared',
-            'adaptive_rows_compared', 'interp_probe_points', 'readonly_param_probes', 'jax_checkify_probes', 'fortran_builds_checked']
+            'adaptive_rows_compared', 'interp_probe_points', 'readonly_param_probes', 'jax_checkify_probes', 'fortran_builds_checked',
+            'runs_with_coarser_sampling']
 ASSUMPTIONS = ['float32 builds are compared at rtol 5e-4 on well-conditioned probe points only',
                'feature set per backend is what the backend accepts (Fortran: scalar models; JAX: no ring buffers); refusals are C20\'s business']
 CASE_TIMEOUT = 420
@@ -41,6 +42,10 @@ def plan(tier, seed):
             mode = 'vf' if r < 0.45 else 'run_fixed' if r < 0.7 else 'run_adaptive' if r < 0.85 else 'interp_probe'
             cases.append({'family': 'main', 'cseed': rnd.randrange(1 << 30), 'backend': b, 'mode': mode,
                           'prec': 'float32' if rnd.random() < 0.3 and mode == 'vf' else 'float64'})
+    # storage loops: fixed-step runs with inputs and a sampling step coarser than the integration step, per backend
+    for b in n:
+        cases += [{'family': 'sampling', 'cseed': rnd.randrange(1 << 30), 'backend': b, 'mode': 'run_fixed', 'prec': 'float64',
+                   'force_sampling': True} for _ in range(8 if tier == 'quick' else 120)]
     opened = open_risks(PID)
     k = 6 if tier == 'quick' else 40
     for feat in FOCUS:
@@ -147,10 +152,12 @@ def run_case(case, ctx):
         elif mode == 'run_fixed':
             solvers = [s for s in backend_class(b).SUPPORTED_SOLVERS if s in ('euler', 'heun')]
             solver = rnd.choice(solvers)
-            use_input = rnd.random() < 0.5
+            use_input = rnd.random() < 0.5 or case.get('force_sampling')
             keys = list(ref.state_keys)[:8]
             outputs = {f'o{i}': '/'.join(k) for i, k in enumerate(keys)}
-            steps = 14
+            # sampling step = m * integration step: every backend has its own storage loop
+            m_samp = rnd.choice([1, 1, 2, 3, 5]) if not case.get('force_sampling') else rnd.choice([2, 3, 5])
+            steps = m_samp * rnd.randint(3, 7) if m_samp > 1 else 14
             inputs, input_fn = None, None
             in_keys = [k for k in ref.param_keys if ref.kind[k] == 'in']
             if use_input and in_keys:
@@ -159,20 +166,27 @@ def run_case(case, ctx):
                 inputs = {'/'.join(ik): arr}
                 input_fn = lambda k, ik=ik, arr=arr: {ik: float(arr[min(k, steps - 1)])}
             try:
-                df = observe.run_model(spec, T=steps * dt, dt=dt, solver=solver, outputs=outputs, backend=b, vectorize=vec, inputs=inputs, **kw)
+                df = observe.run_model(spec, T=steps * dt, dt=dt, solver=solver, outputs=outputs, backend=b, vectorize=vec, inputs=inputs,
+                                       dts=m_samp * dt, **kw)
             except Exception as e:
                 import traceback
                 raise observe.Mismatch(f"loud: run(backend={b}, solver={solver}) raised {type(e).__name__}: {e} :: {traceback.format_exc()[-400:]}")
+            if df.shape[0] != steps // m_samp:
+                raise observe.Mismatch(f"run(backend={b}, solver={solver}, T={steps}*dt, sampling step {m_samp}*dt) returned {df.shape[0]} rows, "
+                                       f"expected {steps // m_samp}")
             msgs = []
             for st2 in (['same'] if solver == 'euler' or not input_fn else ['same', 'next']):
-                exp = observe.ref_trajectory(ref, keys, steps, dt, heun=(solver == 'heun'), input_fn=input_fn, stage2=st2)
+                exp = observe.ref_trajectory(ref, keys, steps, dt, heun=(solver == 'heun'), input_fn=input_fn, stage2=st2)[::m_samp]
                 msgs.append(observe.compare_traj(df.values, exp, rtol=1e-7))
             if 'discard' in msgs:
                 res.update(status='discard', symptom='reference not finite', mech=mech)
                 return res
             if all(msgs):
-                raise observe.Mismatch(f"run(backend={b}, solver={solver}, vectorize={vec}, input={bool(inputs)}): {msgs[0]}")
+                raise observe.Mismatch(f"run(backend={b}, solver={solver}, vectorize={vec}, input={bool(inputs)}, sampling step "
+                                       f"{m_samp}*dt): {msgs[0]}")
             mech['rows_compared'] = df.shape[0]
+            if m_samp > 1:
+                mech['runs_with_coarser_sampling'] = 1
             mech[f'{b}_{solver}'] = 1
         elif mode == 'run_adaptive':
             from scipy.integrate import solve_ivp
